@@ -61,6 +61,7 @@ INV_RE = re.compile(r"Invariant (\S+) is violated")
 PROP_RE = re.compile(r"(Temporal properties were violated|Action property (\S+) is violated|property (\S+) is violated)")
 KNOWN_RE = re.compile(r'<<"KNOWN-FINDING", "(\w+)", "(\w+)", (\d+)>>')
 NOTCONS_RE = re.compile(r'<<"TRACE-NOT-CONSUMED", (\d+), (\d+)>>')
+NOTLIN_RE = re.compile(r'<<"NOT-LINEARIZABLE-AT", (\d+), (\d+)>>')
 COVER_RE = re.compile(r"^<(\w+) line (\d+), col \d+ to line \d+, col \d+ of module (\w+)>: (\d+):(\d+)", re.M)
 
 
@@ -103,6 +104,11 @@ def run_tlc(module_path, cfg, tag, env_extra=None, workers=1, timeout=900, extra
     mn = NOTCONS_RE.search(txt)
     if mn:
         res["not_consumed"] = (int(mn.group(1)), int(mn.group(2)))
+    ml = NOTLIN_RE.search(txt)
+    if ml and res["violated"] is None:
+        # the linearizability monitor: no behaviour consumes the whole history
+        res["violated"] = "Linearizable"
+        res["not_consumed"] = (int(ml.group(1)), int(ml.group(2)))
     for name, _line, _mod, cnt, dist in COVER_RE.findall(txt):
         c = res["coverage"].setdefault(name, [0, 0])
         c[0] += int(cnt)
